@@ -198,6 +198,25 @@ query:
             for (auto &b : pr.leaks) if (b.op == 2) { out.violations.push_back({"query-retains", "size query with Fact=" + std::to_string(fm) + " left a block allocated in " + (b.func ? b.func : "?"), "C08|query-retains|" + mo.kind + "|reuse|" + (b.func ? b.func : "?")}); }
             if (!r.violations.empty()) out.query_failed = true;
         }
+        // ---- 3c. the query leaves the persistent factorization state (GlobalLU_t, a caller workspace in use) as it was: a re-use
+        //          step issued after it gives exactly what it gives without the query ----
+        for (int user = 0; user <= 1; user++) {
+            TaskPlan base = plan; Op f0 = mo; f0.faults.clear(); f0.lwork = user ? ample_lwork(A, plan.tuning, plan.tuning[5], cplx) : 0; f0.align = user ? 4 : 0;
+            Op f2 = f0; f2.fact = SamePattern_SameRowPerm; f2.vchange = "unrelated";
+            { Rng vr(mix3(c.sched_seed, 33, (uint64_t)user)); Mat T = A; gen_values(vr, T, "uniform", cplx); f2.re = T.re; f2.im = T.im; }
+            Op qq = f0; qq.lwork = -1; qq.fact = user ? DOFACT : SamePattern;
+            Op ds; ds.kind = "destroy";
+            TaskPlan p1 = base, p2 = base; p1.ops = {plan.ops[0], f0, f2, ds}; p2.ops = {plan.ops[0], f0, qq, f2, ds};
+            ExecCfg cf = c08_cfg(x.budget);
+            PlanRun r1 = run_plan_single(p1, cf), r2 = run_plan_single(p2, cf);
+            x.h.u64(r1.evhash); x.h.u64(r2.evhash);
+            out.stats["enumerated_runs"] += 2; out.stats["probe_reuse_after_query"] += 1;
+            for (auto &v : r2.trace[3].violations) { size_t bar = v.find('|'); out.violations.push_back({v.substr(0, bar), std::string("re-use step after a size query (") + (user ? "caller workspace" : "library allocation") + "): " + v.substr(bar + 1), "C08|" + v.substr(0, bar) + "|" + mo.kind + "|after-query"}); out.query_failed = true; }
+            if (!r1.trace[2].skipped && !r2.trace[3].skipped && r1.trace[2].violations.empty()) {
+                std::string df = snap_diff(r1.trace[2].snap, r2.trace[3].snap);
+                if (!df.empty()) { out.violations.push_back({"query-disturbs-state", std::string("a SamePattern_SameRowPerm step gives a different result (field ") + df + ") when a size query was issued before it (" + (user ? "caller workspace" : "library allocation") + ")", "C08|query-disturbs-state|" + mo.kind + "|" + (user ? "user" : "system")}); out.query_failed = true; }
+            }
+        }
     }
     out.hash = x.h.h;
     out.nontrivial = out.stats["faults_fired_distinct"] > 0;
